@@ -362,12 +362,32 @@ func (s *seqState) stepOnce() {
 		if resort {
 			cols, asc = s.lastBy, s.lastAsc // the very same request again
 		}
+		if s.mode == "c06" && !resort && r.Chance(10) {
+			// a longer key list: a repeated name followed by (or preceded by) further keys
+			if ks := keysOf(f); len(ks) >= 2 {
+				cols = append([]string{ks[0], ks[0]}, ks[1:]...)
+				if r.Bool() {
+					cols[0], cols[len(cols)-1] = cols[len(cols)-1], cols[0]
+				}
+			}
+		}
 		s.lastBy, s.lastAsc = cols, asc
 		e.Tok("sort")
 		e.Int(t)
 		e.Strs(cols)
 		e.Bool(asc)
-		status, _ = guard(func() error { return s.derive(f.SortValues(cols, asc)) })
+		flags := []bool{asc}
+		switch r.Intn(8) {
+		case 0:
+			if asc { // no flag at all means ascending
+				flags = nil
+			}
+		case 1:
+			flags = []bool{asc, r.Bool(), r.Bool()} // only the first flag counts
+		case 2:
+			flags = []bool{asc, !asc}
+		}
+		status, _ = guard(func() error { return s.derive(f.SortValues(cols, flags...)) })
 	case "shift":
 		p := r.Range(-2, 3)
 		if bad || (s.mode == "c19" && r.Chance(60)) {
@@ -408,7 +428,7 @@ func (s *seqState) stepOnce() {
 		g := s.pool[u]
 		limit := 400
 		if s.mode == "c03" {
-			limit = 1000 // only the two generated frames are ever joined here (at most 30 x 30 rows)
+			limit = 6400 // only the two generated frames are ever joined here (at most 30 x 30 rows)
 		}
 		if f.Nrows()*g.Nrows() > limit { // keep results small: nested-loop joins multiply sizes
 			u = t
@@ -520,6 +540,9 @@ func (s *seqState) stepOnce() {
 			keys = s.colList(f, 2, bad)
 		} else {
 			keys = []string{s.r.NameFor(f, s.names)}
+			if ks := keysOf(f); len(ks) >= 2 && r.Chance(8) {
+				keys = []string{ks[0] + Pick(r, []string{",", ", ", "|"}) + ks[1]} // names no column, though its parts do
+			}
 		}
 		agg := r.Intn(3)
 		cols := s.colList(f, 2, bad)
@@ -649,6 +672,9 @@ func (s *seqState) stepOnce() {
 	case "adddt":
 		col := s.r.NameFor(f, s.names)
 		layout := Pick(r, []string{"2006-01-02", "2006-01-02 15:04:05", "2006-01-02", "2006-01-02 15:04:05", time.RFC3339, "January 2, 2006"})
+		if bad && r.Chance(30) {
+			layout = Pick(r, []string{"%Y-%m-%", "2006-01-02 %", "%", "%Y-%m-%d", ""})
+		}
 		if c, ok := f.Columns[col]; ok {
 			for _, v := range c.Data {
 				if sv, ok := v.(string); ok {
@@ -771,6 +797,27 @@ func genSeq(r *Rng, mode string, steps int) *Enc {
 			right = []string{"a", "d"}
 		}
 		s.pool = []*DF{mk(left), mk(right)}
+		if r.Intn(60) == 0 {
+			// both frames long, keys all int, already in ascending order, with repeats on both sides
+			mkSorted := func(pay string) *DF {
+				m := r.Range(64, 80)
+				kd, pd := make([]any, m), make([]any, m)
+				v := 0
+				for i := range kd {
+					if !r.Chance(35) {
+						v += r.Range(1, 2)
+					}
+					kd[i], pd[i] = v, i
+				}
+				df := dataframe.NewDataFrame()
+				df.Columns[kn] = &dataframe.Column[any]{Name: kn, Data: kd}
+				df.Columns[pay] = &dataframe.Column[any]{Name: pay, Data: pd}
+				return df
+			}
+			s.pool = []*DF{mkSorted("l"), mkSorted("r")}
+			s.kinds = []string{"join"}
+			steps = 1
+		}
 		s.names = []string{kn, "a", "c", "zz"}
 		s.joinKey = kn
 	case "c06":
@@ -807,6 +854,10 @@ func genSeq(r *Rng, mode string, steps int) *Enc {
 				}
 			}
 			if r.Chance(6) {
+				for i := range d {
+					d[i] = Pick(r, []any{"1.5", "1.50", "7", "007", "100", "1e2", "7.0", nil}) // equal numbers, different spellings: ties
+				}
+			} else if r.Chance(6) {
 				for i := range d {
 					d[i] = Pick(r, []any{".5", "0.25", ".75", "0.1", "-.5", "1", nil})
 				}
@@ -900,7 +951,8 @@ func genSeq(r *Rng, mode string, steps int) *Enc {
 			case 0: // floats for Astype int, incl. negative fractions and large values
 				d = make([]any, n)
 				for i := range d {
-					d[i] = Pick(r, []float64{0, 1, -0.5, 0.5, 2.9, -2.9, 1e15, 4611686018427387904.0 / 2, -7.99})
+					d[i] = Pick(r, []float64{0, 1, -0.5, 0.5, 2.9, -2.9, 1e15, 4611686018427387904.0 / 2, -7.99,
+						math.Copysign(0, -1), 0, 28.999999999999996, 0.9999999999999999, -2.9999999999999996})
 				}
 			case 1:
 				d = r.Column(n, kInt)
@@ -1028,6 +1080,27 @@ func genSeq(r *Rng, mode string, steps int) *Enc {
 		s.pool = []*DF{df}
 		s.kinds = []string{"dedup", "dedupin"}
 		steps = 1
+	case mode == "c07" && r.Intn(60) == 0:
+		// more than 64 columns, rows differing only in one of the LAST columns (by name order)
+		df := bigFrame(r, r.Range(3, 6), 70)
+		for _, c := range df.Columns {
+			for i := range c.Data {
+				c.Data[i] = c.Data[0]
+			}
+		}
+		last := df.Columns["c069"]
+		for i := range last.Data {
+			last.Data[i] = i % 2
+		}
+		s.pool = []*DF{df}
+		s.kinds = []string{"dedup", "dedupin"}
+		steps = 1
+	case mode == "c08" && r.Intn(80) == 0:
+		// a long history of DropRow on one frame (capacity stays, length shrinks to a fraction of it)
+		n := r.Range(80, 130)
+		s.pool = []*DF{bigFrame(r, n, 2)}
+		s.kinds = []string{"droprow"}
+		steps = n - n/5
 	case mode == "c19" && r.Intn(60) == 0:
 		s.pool = []*DF{bigFrame(r, r.Range(1, 3), Pick(r, []int{33, 40, 100}))}
 		s.kinds = []string{"shift"}
